@@ -5,7 +5,9 @@
    style s i := style_of (texts of the settings character i reports) - the effective style on the
    SPECIFICATION terminal; teq is exact equality of terminal states.  Hypotheses:
      ssorted          - change points strictly increasing (reachable-value invariant, C09);
-     no_esc (base s)  - no ESC in the base text (known finding K1);
+     no_esc (base s)  - no ESC in the base text (known finding K1); the round trip itself is proved under the
+                        weaker cuts_closed s (C03_roundtrip_esc below): embedded control sequences are allowed when
+                        they are complete, not SGR, and no change point lies strictly inside one;
      adds_wf / valid_adds_wf - the (valid) setting texts are well-formed SGR parameter groups, the
                         premise of the property;
      coh_marks        - an object identity determines its text (true of Python objects; needed because
@@ -13,7 +15,7 @@
 From AS Require Import Base Effects.
 From AS.Spec Require Import Terminal.
 From AS.Model Require Import Sgr Tokenizer Table Ops Render Parse.
-From AS.Proofs Require Import TableProofs TokenizerProofs ParseBasics RemoveProofs RenderProofs ParseProofs RoundTripProofs.
+From AS.Proofs Require Import TableProofs TokenizerProofs ParseBasics RemoveProofs RenderProofs ParseProofs RoundTripProofs RoundTripEsc.
 
 Theorem C03_simplify_def : forall s nid,
   simplify s nid = parse (render (mkA (base s) (drop_invalid (tbl s)))) nid.
@@ -39,6 +41,42 @@ Theorem C03_roundtrip_all_flags : forall s opt rs re nid,
   base s' = base s /\ forall i, i < length (base s) -> teq (style s' i) (style s i).
 Proof. exact roundtrip_to_str_exact. Qed.
 Print Assumptions C03_roundtrip_all_flags.
+
+(* THE ROUND TRIP WITH EMBEDDED CONTROL SEQUENCES.  no_esc is stronger than needed: the library keeps control
+   sequences that are not SGR verbatim in the text, and str() / re-parse is correct for such a value as long as the
+   text is "closed" - every ESC [ in it starts a COMPLETE sequence with a final byte other than m, and it does not
+   end in ESC (closed_text, a three-state reader) - and so is its prefix up to every change point, i.e. no style
+   change lies strictly inside an embedded sequence (cuts_closed).  What falls outside is exactly known finding K1
+   (Examples C03_cut_inside_breaks, C03_open_end_breaks).  A closed text tokenises to its own characters in every
+   context (C03_closed_tokenises). *)
+Theorem C03_closed_tokenises : forall x rest, closed_text x = true ->
+  Tokenizer.tokenize false (Some [CH_m]) (x ++ rest) = map TChar x ++ Tokenizer.tokenize false (Some [CH_m]) rest.
+Proof. exact tkz_closed. Qed.
+Print Assumptions C03_closed_tokenises.
+
+Theorem C03_roundtrip_esc : forall s opt rs re nid,
+  ssorted (tbl s) -> adds_wf (tbl s) -> cuts_closed s = true ->
+  let s' := fst (parse (to_str s opt rs re) nid) in
+  base s' = base s /\ forall i, i < length (base s) -> teq (style s' i) (style s i).
+Proof. exact roundtrip_esc. Qed.
+Print Assumptions C03_roundtrip_esc.
+
+Theorem C03_roundtrip_esc_wf : forall s nid,
+  ssorted (tbl s) -> adds_wf (tbl s) -> cuts_closed s = true ->
+  let s' := fst (parse (render s) nid) in
+  base s' = base s /\ (forall i, i < length (base s) -> teq (style s' i) (style s i))
+  /\ rm_wf s' /\ is_parsable_tbl (tbl s') = true /\ is_valid_tbl (tbl s') = true.
+Proof. exact roundtrip_esc_render. Qed.
+Print Assumptions C03_roundtrip_esc_wf.
+
+(* it covers the ESC-free case *)
+Theorem C03_no_esc_is_closed : forall s, no_esc (base s) = true -> cuts_closed s = true.
+Proof. exact no_esc_cuts_closed. Qed.
+
+Example C03_esc_example_hyps := ex_e_hyps.
+Example C03_esc_example_roundtrip := ex_e_roundtrip.
+Example C03_cut_inside_breaks := cut_inside_breaks.
+Example C03_open_end_breaks := open_end_breaks.
 
 (* simplify(): the text and the effective style of every character (computed from the VALID settings:
    invalid ones are dropped by definition) are unchanged; afterwards is_formatting_parsable() and
